@@ -9,7 +9,7 @@ import re
 
 from exo.core.LoopIR import LoopIR, T
 
-from vf import explore, menus, oracles, seeds, irx, inputs, interp
+from vf import explore, menus, oracles, seeds, irx, inputs, interp, plans
 from vf.oracles import BaseOracle
 from vf.checks.c01 import fill_evidence, seed_list, replay  # noqa
 
@@ -206,10 +206,5 @@ def _first_diff(a, b):
 
 def run(rep):
     tier = rep.tier
-    names = seed_list(tier)
-    if tier == "quick":
-        st = explore.explore(rep, names, "vf.checks.c17", tier, depth=1, root_parts=6)
-    else:
-        st = explore.explore(rep, names, "vf.checks.c17", tier, depth=2, root_parts=8,
-                             max_states_per_level=4000, time_budget_s=3000)
+    st = plans.run_plan(rep, "vf.checks.c17", tier, plans.standard(tier, thorough_cap=4000))
     fill_evidence(rep, st)
